@@ -272,6 +272,24 @@ Qed.
 End Run.
 
 
+(* the best value never increases: after the last trial the reported best is at most the best before it *)
+Lemma iteration_best_le (p : params (T := R)) s z s' x :
+  AllInv g_ops p s -> iteration g_ops p s (Value z) = (s', Done x) -> sZ s' <= sZ s.
+Proof.
+  intros A It.
+  destruct (recalc_all_inv g_ops g_ord_laws p g_zero_lt_half g_half_lt_one s A) as (A1 & _ & _ & _ & _).
+  destruct A1 as (_ & _ & B1 & _ & _).
+  destruct B1 as (ub & xb & zb & Eb & BZ & _ & _).
+  assert (EZ : sZ (recalc_all g_ops p s) = sZ s) by (unfold recalc_all; destruct (recalc s); reflexivity).
+  apply iteration_done_inv in It. cbn zeta in It.
+  destruct It as (pr & u & q2 & before & l & old & after & _ & _ & _ & _ & b & rc & Zs & M1 & rc1 & M2 & rc2 & Hu & _ & _ & ->).
+  cbn [sZ]. unfold upd_opt in Hu. rewrite Eb in Hu. cbn [iz] in Hu. rewrite (updopt_spec g_ops) in Hu. cbn [orb] in Hu.
+  rewrite <- EZ, BZ.
+  destruct (ltb g_ops z zb) eqn:L; injection Hu as _ _ <-.
+  - cbn [ltb g_ops] in L. apply rltb_true in L. lra.
+  - rewrite BZ. lra.
+Qed.
+
 (* end to end *)
 Theorem agp_certificate_n (p : params (T := R)) (phi : R -> R) (H g : R) :
   1 < p_r p -> 0 <= H -> 0 <= g -> (forall x y, 0 <= x -> x < y -> y <= 1 -> Rabs (phi x - phi y) <= H * root (y - x) + g) ->
@@ -286,5 +304,93 @@ Proof.
   apply (certificate_n p Hr phi H HH g Hg Hoe s (phi x) s' x eps A St); try assumption.
   unfold Faithful. apply (SC_faithful_n phi _ _ HSC). exact F.
 Qed.
+
+(* ... and so does the best value REPORTED after that last trial *)
+Theorem agp_certificate_n_final (p : params (T := R)) (phi : R -> R) (H g : R) :
+  1 < p_r p -> 0 <= H -> 0 <= g -> (forall x y, 0 <= x -> x < y -> y <= 1 -> Rabs (phi x - phi y) <= H * root (y - x) + g) ->
+  forall k s s' x eps, (1 <= k)%nat -> PhiRunN p phi k s -> step g_ops p s (Value (phi x)) = (s', Done x) ->
+  4 * c * H <= p_r p * sM s -> ltb g_ops (mind s) eps = false -> ltb g_ops (mind s') eps = true ->
+  forall y, 0 <= y <= 1 -> sZ s' - phi y < p_r p * sM s / 2 * eps + g.
+Proof.
+  intros Hr HH Hg Hoe k s s' x eps Hk Hrun St Hmu Hb Ha y Hy.
+  pose proof (agp_certificate_n p phi H g Hr HH Hg Hoe k s s' x eps Hk Hrun St Hmu Hb Ha y Hy) as Q.
+  destruct (phirun_inv_n p phi k s Hrun) as [[C _]|[A F]]; [lia|].
+  pose proof A as (Ff & _). unfold step in St. rewrite Ff in St.
+  pose proof (iteration_best_le p s (phi x) s' x A St). lra.
+Qed.
+
+(* ---------- in terms of Solve itself ---------- *)
+Section SolveLevel.
+Variable p : params (T := R).
+Variable phi : R -> R.
+Variable ans : nat -> answer R.
+
+(* the answer stream is the objective: along the run from the initial state, the answer to the trial at x is phi x *)
+Definition Driven : Prop := forall k s xs s' x, steps g_ops p ans k (init_st g_ops) = Some (s, xs) ->
+  step g_ops p s (ans (calls s)) = (s', Done x) -> ans (calls s) = Value (phi x).
+
+Lemma steps_snoc k s0 s xs : steps g_ops p ans (S k) s0 = Some (s, xs) ->
+  exists s1 xs1 x, steps g_ops p ans k s0 = Some (s1, xs1) /\ step g_ops p s1 (ans (calls s1)) = (s, Done x) /\ xs = xs1 ++ [x].
+Proof.
+  replace (S k) with (k + 1)%nat by lia. rewrite steps_compose.
+  destruct (steps g_ops p ans k s0) as [[s1 xs1]|]; [|discriminate]. cbn [steps].
+  destruct (step g_ops p s1 (ans (calls s1))) as [s2 oc] eqn:E. destruct oc as [x| |]; try discriminate.
+  intros [= <- <-]. exists s1, xs1, x. auto.
+Qed.
+
+Lemma steps_phirun : Driven -> forall k s xs, steps g_ops p ans k (init_st g_ops) = Some (s, xs) -> PhiRunN p phi k s.
+Proof.
+  intros D. induction k as [|k IH]; intros s xs St.
+  - cbn [steps] in St. injection St as <- _. constructor.
+  - destruct (steps_snoc k _ s xs St) as (s1 & xs1 & x & S1 & E & _).
+    pose proof (D k s1 xs1 s x S1 E) as A. rewrite A in E.
+    eapply PRNS; [apply (IH s1 xs1 S1) | exact E].
+Qed.
+
+Lemma solves_steps s s' xs e : Solves g_ops p ans s s' xs e -> e = false ->
+  exists j, steps g_ops p ans j s = Some (s', xs) /\ stop g_ops p s' = true /\
+            forall i si xsi, (i < j)%nat -> steps g_ops p ans i s = Some (si, xsi) -> stop g_ops p si = false.
+Proof.
+  intros So. induction So as [s Hs | s s' oc Hs E Hd | s s1 x s' xs e Hs E So IH]; intros He; try discriminate He.
+  - exists 0%nat. split; [reflexivity|]. split; [exact Hs|]. intros i si xsi Hi. lia.
+  - destruct (IH He) as (j & St & Hstop & Hbefore). exists (S j). split.
+    + cbn [steps]. rewrite E, St. reflexivity.
+    + split; [exact Hstop|]. intros i si xsi Hi Sti. destruct i as [|i].
+      * cbn [steps] in Sti. injection Sti as <- _. exact Hs.
+      * cbn [steps] in Sti. rewrite E in Sti. destruct (steps g_ops p ans i s1) as [[sa xa]|] eqn:Ei; [|discriminate Sti].
+        injection Sti as <- _. apply (Hbefore i sa xa); [lia | exact Ei].
+Qed.
+
+(* When Solve, started on a fresh solver, ends without an exception and the accuracy test is what holds at the end (the requested
+   accuracy was reached), the state s in which the last interval was selected exists, and with the estimate M of THAT state
+   satisfying r M >= 4 c H the returned best value is within (r M / 2) eps + g of phi everywhere *)
+Theorem solve_certificate_n (H g : R) :
+  1 < p_r p -> 0 <= H -> 0 <= g -> (forall x y, 0 <= x -> x < y -> y <= 1 -> Rabs (phi x - phi y) <= H * root (y - x) + g) ->
+  Driven -> ltb g_ops (pinf g_ops) (p_eps p) = false ->
+  forall s_f xs, Solves g_ops p ans (init_st g_ops) s_f xs false -> ltb g_ops (mind s_f) (p_eps p) = true ->
+  exists s x, (exists k xs0, steps g_ops p ans k (init_st g_ops) = Some (s, xs0)) /\
+              step g_ops p s (Value (phi x)) = (s_f, Done x) /\ ltb g_ops (mind s) (p_eps p) = false /\
+              (4 * c * H <= p_r p * sM s -> forall y, 0 <= y <= 1 -> sZ s_f - phi y < p_r p * sM s / 2 * p_eps p + g).
+Proof.
+  intros Hr HH Hg Hoe D Hinf s_f xs So Hacc.
+  destruct (solves_steps _ _ _ _ So eq_refl) as (j & St & Hstop & Hbefore).
+  destruct j as [|j].
+  - cbn [steps] in St. injection St as <- _. cbn [mind init_st] in Hacc. congruence.
+  - destruct (steps_snoc j _ s_f xs St) as (s & xs1 & x & S1 & E & _).
+    pose proof (D j s xs1 s_f x S1 E) as A. rewrite A in E.
+    assert (Hs : stop g_ops p s = false) by (apply (Hbefore j s xs1); [lia | exact S1]).
+    assert (Hm : ltb g_ops (mind s) (p_eps p) = false).
+    { unfold stop in Hs. rewrite (stop_spec g_ops) in Hs. apply orb_false_iff in Hs. tauto. }
+    exists s, x. split; [exists j, xs1; exact S1|]. split; [exact E|]. split; [exact Hm|].
+    intros Hmu y Hy.
+    pose proof (steps_phirun D j s xs1 S1) as Run.
+    destruct j as [|j].
+    + (* the very first iteration subdivides nothing: the accuracy cannot have been reached by it *)
+      exfalso. cbn [steps] in S1. injection S1 as <- _. unfold step in E. cbn [firstflag init_st] in E.
+      destruct (first_iteration_done g_ops p _ _ _ _ E) as (z & _ & _ & _ & _ & _ & Em & _). rewrite Em in Hacc. cbn [mind init_st] in Hacc. congruence.
+    + apply (agp_certificate_n_final p phi H g Hr HH Hg Hoe (S j) s s_f x (p_eps p) ltac:(lia) Run E Hmu Hm Hacc y Hy).
+Qed.
+
+End SolveLevel.
 
 End Root.
